@@ -237,3 +237,2216 @@ fn kw(lay: &mut Ch, word: &str) -> Tok {
 fn p(s: &str) -> Tok {
     tok(s, K::P)
 }
+
+// ------------------------------------------------------------------------------------------
+// concrete syntax tree: structure of the generated tree + the exact lexeme chosen for every term
+// ------------------------------------------------------------------------------------------
+
+#[derive(Clone, PartialEq, Debug)]
+enum CT {
+    T(Tok),
+    Q(Box<[CT; 3]>),
+}
+
+impl CT {
+    /// lexeme as the AST must report it (quoted triples: raw slice, compared token-wise → tokens joined by one blank)
+    fn canon(&self) -> String {
+        match self {
+            CT::T(t) => t.s.clone(),
+            CT::Q(b) => lexer_checked(format!("<< {} {} {} >>", b[0].canon(), b[1].canon(), b[2].canon())),
+        }
+    }
+    fn toks(&self, out: &mut Vec<Tok>) {
+        match self {
+            CT::T(t) => out.push(t.clone()),
+            CT::Q(b) => {
+                out.push(p("<<"));
+                for x in b.iter() {
+                    x.toks(out);
+                }
+                out.push(p(">>"));
+            }
+        }
+    }
+}
+
+#[derive(Clone, Debug)]
+enum CA {
+    Leaf(Tok),
+    Bin(char, Box<CA>, Box<CA>),
+    Paren(Box<CA>),
+}
+
+impl CA {
+    fn toks(&self, out: &mut Vec<Tok>) {
+        match self {
+            CA::Leaf(t) => out.push(t.clone()),
+            CA::Bin(op, l, r) => {
+                l.toks(out);
+                out.push(p(&op.to_string()));
+                r.toks(out);
+            }
+            CA::Paren(i) => {
+                out.push(p("("));
+                i.toks(out);
+                out.push(p(")"));
+            }
+        }
+    }
+}
+
+#[derive(Clone, Debug)]
+enum CF {
+    Cmp(CA, &'static str, CA),
+    And(Box<CF>, Box<CF>),
+    Or(Box<CF>, Box<CF>),
+    Not(Box<CF>),
+}
+
+#[derive(Clone, Debug)]
+enum CArg {
+    Var(Tok),
+    /// quoted string argument: token as written, text the AST keeps (historical form: without the quotes)
+    Str(Tok, String),
+}
+
+#[derive(Clone, Debug)]
+enum CE {
+    Bgp(Vec<[CT; 3]>),
+    Group(Vec<CE>),
+    Union(Vec<Vec<CE>>),
+    Graph(Tok, Vec<CE>),
+    Filter(CF),
+    Bind(Vec<CArg>, Tok),
+    Values(Vec<Tok>, Vec<Vec<Option<Tok>>>),
+    Sub(Box<CS>),
+}
+
+#[derive(Clone, Debug)]
+enum CProj {
+    Var(Tok),
+    Agg(&'static str, Tok, Tok),
+}
+
+#[derive(Clone, Debug)]
+struct CS {
+    distinct: bool,
+    proj: Option<Vec<CProj>>, // None = *
+    from: Vec<Tok>,
+    from_named: Vec<Tok>,
+    body: Vec<CE>,
+    group_by: Vec<Tok>,
+    order: Vec<(Tok, bool)>,
+    limit: Option<usize>,
+}
+
+#[derive(Clone, Debug)]
+struct CQuad {
+    graph: Option<Tok>,
+    t: [CT; 3],
+}
+
+#[derive(Clone, Debug)]
+enum CU {
+    InsertData(Vec<CQuad>),
+    DeleteData(Vec<CQuad>),
+    Modify { delete: Vec<CQuad>, insert: Vec<CQuad>, w: Vec<CE> },
+    DeleteWhere(Vec<CQuad>),
+}
+
+#[derive(Clone, Debug)]
+enum CBody {
+    Sel(CS),
+    Upd(CU),
+}
+
+#[derive(Clone, Debug)]
+struct CReq {
+    prefixes: Vec<(String, String)>,
+    body: CBody,
+}
+
+// ---- lexicalisation: harness tree -> CST, driven by the `lex` choice stream ----
+
+const PREFIXES: [(&str, &str); 6] = [
+    ("e", sq::NS),
+    ("xsd", "http://www.w3.org/2001/XMLSchema#"),
+    ("rdf", "http://www.w3.org/1999/02/22-rdf-syntax-ns#"),
+    ("é", "http://é/"),
+    ("e.x", "http://e/x/"),
+    ("", "http://d/"),
+];
+
+/// exotic prefixed names: (prefix, local) — PN_LOCAL with dots, escapes, percent, leading digit, colons, non-ASCII, empty
+const EXOTIC_PNAME: [(&str, &str); 14] = [
+    ("e", "item.one"),
+    ("e", "has\\.value"),
+    ("e", "enc%2Evalue"),
+    ("e", "esc\\#name"),
+    ("e", "1x"),
+    ("e", "a:b"),
+    ("e", "é"),
+    ("e", "x-y"),
+    ("e", ""),
+    ("é", "x"),
+    ("e.x", "y"),
+    ("", "x"),
+    ("e", "_u"),
+    ("e", "a\\~b\\!c"),
+];
+
+const EXOTIC_IRI: [&str; 8] = ["<http://e/\\u0067>", "<http://e/\\U0001F600x>", "<http://exämple.org/ü>", "<urn:x#frag>", "<>", "<mailto:a@b.c>", "<http://e/a%20b>", "<http://e/(x)>"];
+
+/// exotic literal bodies with the quote styles they are legal in (bit0 "x", bit1 'x', bit2 """x""", bit3 '''x''')
+const EXOTIC_BODY: [(&str, u8); 16] = [
+    ("a # not a comment", 15),
+    ("} { . ; , ( )", 15),
+    ("?notvar $x _:b <iri>", 15),
+    ("é€😀e\u{0301}", 15),
+    ("\\t\\n\\r\\b\\f\\\\", 15),
+    ("\\\"\\'", 15),
+    ("\\u0041\\U0001F600", 15),
+    ("", 15),
+    ("it's", 0b0101),
+    ("say \"hi\" ok", 0b1110),
+    ("line1\nline2", 0b1100),
+    ("a''b", 0b1101),
+    ("a\"\"b", 0b1110),
+    (">> <<", 15),
+    ("FILTER(?x > 1) UNION", 15),
+    ("cr\rlf", 0b1100),
+];
+
+const EXOTIC_BNODE: [&str; 5] = ["a.b", "1v", "é", "b-1", "_x"];
+
+#[derive(Clone, Copy, PartialEq, Debug)]
+enum Pos {
+    Subj,
+    Pred,
+    Obj,
+    Graph,
+    FilterOp,
+    Value,
+    Inner, // inside a quoted triple
+}
+
+struct Lx<'a> {
+    ch: Ch<'a>,
+    used: BTreeSet<&'static str>,
+    exotic: u32,
+    quoted: u32,
+    allow_bnode_subst: bool,
+}
+
+impl<'a> Lx<'a> {
+    fn var(&mut self, name: &str) -> Tok {
+        let sigil = if self.ch.chance(70) { '$' } else { '?' };
+        let name = if self.ch.chance(14) {
+            self.exotic += 1;
+            format!("{name}_é1")
+        } else {
+            name.to_string()
+        };
+        tok(format!("{sigil}{name}"), K::Var)
+    }
+    fn pname(&mut self, prefix: &'static str, local: &str) -> Tok {
+        self.used.insert(prefix);
+        tok(format!("{prefix}:{local}"), K::Name)
+    }
+    fn exotic_name(&mut self) -> Tok {
+        self.exotic += 1;
+        let (pf, l) = EXOTIC_PNAME[self.ch.pick(EXOTIC_PNAME.len())];
+        self.pname(pf, l)
+    }
+    fn iri_plain(&mut self, i: &str, pos: Pos) -> Tok {
+        if pos == Pos::Pred && i == sq::RDF_TYPE {
+            match self.ch.pick(4) {
+                0 | 1 => return tok("a", K::Kw),
+                2 => return self.pname("rdf", "type"),
+                _ => {}
+            }
+        }
+        if let Some(local) = i.strip_prefix(sq::NS) {
+            if !local.is_empty() && local.chars().all(|c| c.is_ascii_alphanumeric()) && self.ch.pick(2) == 0 {
+                return self.pname("e", local);
+            }
+        }
+        tok(format!("<{i}>"), K::Iri)
+    }
+    fn iri_tok(&mut self, i: &str, pos: Pos) -> Tok {
+        if self.ch.chance(26) {
+            if self.ch.pick(3) == 0 {
+                self.exotic += 1;
+                return tok(EXOTIC_IRI[self.ch.pick(EXOTIC_IRI.len())], K::Iri);
+            }
+            return self.exotic_name();
+        }
+        self.iri_plain(i, pos)
+    }
+    fn bnode(&mut self, label: &str) -> Tok {
+        if self.ch.chance(40) {
+            self.exotic += 1;
+            return tok(format!("_:{}", EXOTIC_BNODE[self.ch.pick(EXOTIC_BNODE.len())]), K::Name);
+        }
+        tok(format!("_:{label}"), K::Name)
+    }
+    fn lit_tok(&mut self, body: &str) -> Tok {
+        let mut body = body.to_string();
+        let mut style = self.ch.pick(4);
+        if self.ch.chance(36) {
+            self.exotic += 1;
+            let (b, mask) = EXOTIC_BODY[self.ch.pick(EXOTIC_BODY.len())];
+            body = b.to_string();
+            while mask & (1 << style) == 0 {
+                style = (style + 1) % 4;
+            }
+        }
+        let q = ["\"", "'", "\"\"\"", "'''"][style];
+        let suffix = match self.ch.pick(12) {
+            0..=5 => String::new(),
+            6 => "@en".into(),
+            7 => "@en-US".into(),
+            8 => "@x-private1".into(),
+            9 => "^^<http://www.w3.org/2001/XMLSchema#string>".into(),
+            10 => {
+                self.used.insert("xsd");
+                "^^xsd:string".into()
+            }
+            _ => {
+                self.used.insert("e");
+                "^^e:dt.x".into()
+            }
+        };
+        tok(format!("{q}{body}{q}{suffix}"), K::Lit)
+    }
+    fn num_tok(&mut self, n: i64, signed_ok: bool) -> Tok {
+        let n = n.unsigned_abs();
+        let forms = if signed_ok { 12 } else { 8 };
+        let s = match self.ch.pick(forms) {
+            0 | 1 => format!("{n}"),
+            2 => format!("{n}.0"),
+            3 => format!("{n}.50"),
+            4 => format!("{n}e0"),
+            5 => format!("{n}E+1"),
+            6 => format!("{n}.5e-1"),
+            7 => format!(".{n}"),
+            8 => format!("+{n}"),
+            9 => format!("-{n}"),
+            10 => format!("-{n}.5"),
+            _ => format!("+.{n}"),
+        };
+        tok(s, K::Num)
+    }
+    fn quoted(&mut self, depth: u32, allow_bnode: bool) -> CT {
+        self.quoted += 1;
+        let s = if depth < 2 && self.ch.chance(50) {
+            self.quoted(depth + 1, allow_bnode)
+        } else if allow_bnode && self.ch.chance(40) {
+            CT::T(self.bnode("q"))
+        } else {
+            let i = format!("{}s{}", sq::NS, self.ch.pick(5));
+            CT::T(self.iri_tok(&i, Pos::Inner))
+        };
+        let pk = self.ch.pick(3);
+        let pr = if pk == 0 { CT::T(tok("a", K::Kw)) } else { CT::T(self.iri_tok(&format!("{}p{}", sq::NS, pk), Pos::Inner)) };
+        let o = match self.ch.pick(5) {
+            0 if depth < 2 => self.quoted(depth + 1, allow_bnode),
+            1 => CT::T(self.lit_tok("q")),
+            2 => {
+                let n = self.ch.pick(9) as i64;
+                CT::T(self.num_tok(n, false))
+            }
+            _ => {
+                let i = format!("{}o{}", sq::NS, self.ch.pick(3));
+                CT::T(self.iri_tok(&i, Pos::Inner))
+            }
+        };
+        CT::Q(Box::new([s, pr, o]))
+    }
+    /// a constant in a triple / quad position
+    fn constant(&mut self, c: &Tm, pos: Pos, allow_bnode: bool) -> CT {
+        if matches!(pos, Pos::Subj | Pos::Obj) && self.ch.chance(16) {
+            return self.quoted(0, allow_bnode);
+        }
+        if matches!(pos, Pos::Subj | Pos::Obj) && allow_bnode && self.allow_bnode_subst && self.ch.chance(10) {
+            return CT::T(self.bnode("s"));
+        }
+        CT::T(self.scalar(c, pos))
+    }
+    /// a constant that is a single token (filter operands, VALUES cells, graph names, triple terms)
+    fn scalar(&mut self, c: &Tm, pos: Pos) -> Tok {
+        match c {
+            Tm::Iri(i) => self.iri_tok(i, pos),
+            Tm::Lit(s) => {
+                if self.ch.chance(16) {
+                    self.exotic += 1;
+                    return tok(["true", "false", "TRUE", "False"][self.ch.pick(4)], K::Kw);
+                }
+                self.lit_tok(s)
+            }
+            Tm::Num(n) => self.num_tok(*n, matches!(pos, Pos::Obj | Pos::Value)),
+        }
+    }
+    fn pt(&mut self, t: &PT, pos: Pos, memo: &mut Vec<(PT, Pos, CT)>) -> CT {
+        if matches!(pos, Pos::Subj | Pos::Pred) {
+            if let Some((_, _, c)) = memo.iter().find(|(x, q, _)| x == t && *q == pos) {
+                if !self.ch.chance(40) {
+                    return c.clone();
+                }
+            }
+        }
+        let c = match t {
+            PT::Var(v) => CT::T(self.var(v)),
+            PT::C(c) => self.constant(c, pos, true),
+        };
+        if matches!(pos, Pos::Subj | Pos::Pred) {
+            memo.retain(|(x, q, _)| !(x == t && *q == pos));
+            memo.push((t.clone(), pos, c.clone()));
+        }
+        c
+    }
+    fn gname(&mut self, g: &GName) -> Tok {
+        match g {
+            GName::Var(v) => self.var(v),
+            GName::Iri(i) => self.iri_tok(i, Pos::Graph),
+        }
+    }
+    fn arith(&mut self, a: &Arith, top: bool) -> CA {
+        match a {
+            Arith::Var(v) => CA::Leaf(self.var(v)),
+            Arith::Num(n) => CA::Leaf(self.num_tok(*n, false)),
+            Arith::Add(l, r) | Arith::Sub(l, r) | Arith::Mul(l, r) => {
+                let op = match a {
+                    Arith::Add(..) => '+',
+                    Arith::Sub(..) => '-',
+                    _ => '*',
+                };
+                let inner = CA::Bin(op, Box::new(self.arith(l, false)), Box::new(self.arith(r, false)));
+                // the operand text is kept verbatim by the AST, so parentheses are part of the lexeme choice
+                if top && self.ch.chance(100) {
+                    inner
+                } else {
+                    CA::Paren(Box::new(inner))
+                }
+            }
+        }
+    }
+    fn fexpr(&mut self, f: &FExpr) -> CF {
+        match f {
+            FExpr::Cmp(v, op, r) => {
+                let l = CA::Leaf(self.var(v));
+                let r = match r {
+                    PT::Var(w) => CA::Leaf(self.var(w)),
+                    PT::C(c) => CA::Leaf(self.scalar(c, Pos::FilterOp)),
+                };
+                CF::Cmp(l, op.s(), r)
+            }
+            FExpr::ArithCmp(l, op, r) => CF::Cmp(self.arith(l, true), op.s(), self.arith(r, true)),
+            FExpr::And(l, r) => CF::And(Box::new(self.fexpr(l)), Box::new(self.fexpr(r))),
+            FExpr::Or(l, r) => CF::Or(Box::new(self.fexpr(l)), Box::new(self.fexpr(r))),
+            FExpr::Not(i) => CF::Not(Box::new(self.fexpr(i))),
+        }
+    }
+    fn elems(&mut self, es: &[Elem]) -> Vec<CE> {
+        es.iter()
+            .map(|e| match e {
+                Elem::Bgp(ts) => {
+                    let mut memo = vec![];
+                    CE::Bgp(ts.iter().map(|t| [self.pt(&t[0], Pos::Subj, &mut memo), self.pt(&t[1], Pos::Pred, &mut memo), self.pt(&t[2], Pos::Obj, &mut memo)]).collect())
+                }
+                Elem::Group(g) => CE::Group(self.elems(g)),
+                Elem::Union(bs) => CE::Union(bs.iter().map(|b| self.elems(b)).collect()),
+                Elem::Graph(n, g) => CE::Graph(self.gname(n), self.elems(g)),
+                Elem::Filter(f) => CE::Filter(self.fexpr(f)),
+                Elem::Bind(args, out) => {
+                    let a = args
+                        .iter()
+                        .map(|a| match a {
+                            BArg::Var(v) => CArg::Var(self.var(v)),
+                            BArg::Str(s) => {
+                                let mut body = s.clone();
+                                let mut style = self.ch.pick(2);
+                                if self.ch.chance(40) {
+                                    self.exotic += 1;
+                                    let (b, mask) = EXOTIC_BODY[self.ch.pick(10)];
+                                    body = b.to_string();
+                                    while mask & (1 << style) == 0 {
+                                        style = (style + 1) % 2;
+                                    }
+                                }
+                                let q = ["\"", "'"][style];
+                                CArg::Str(tok(format!("{q}{body}{q}"), K::Lit), body)
+                            }
+                        })
+                        .collect();
+                    CE::Bind(a, self.var(out))
+                }
+                Elem::Values(vars, rows) => {
+                    let vs = vars.iter().map(|v| self.var(v)).collect();
+                    let rs = rows.iter().map(|r| r.iter().map(|c| c.as_ref().map(|c| self.scalar(c, Pos::Value))).collect()).collect();
+                    CE::Values(vs, rs)
+                }
+                Elem::Sub(q) => CE::Sub(Box::new(self.select(q))),
+            })
+            .collect()
+    }
+    fn select(&mut self, q: &Select) -> CS {
+        let proj = match &q.proj {
+            Proj::Star => None,
+            Proj::Items(items) => Some(
+                items
+                    .iter()
+                    .map(|i| match i {
+                        ProjItem::Var(v) => CProj::Var(self.var(v)),
+                        ProjItem::Agg(k, v, a) => CProj::Agg(
+                            match k {
+                                AggKind::Sum => "SUM",
+                                AggKind::Min => "MIN",
+                                AggKind::Max => "MAX",
+                                AggKind::Avg => "AVG",
+                            },
+                            self.var(v),
+                            self.var(a),
+                        ),
+                    })
+                    .collect(),
+            ),
+        };
+        let from = q.from.iter().map(|g| self.iri_tok(g, Pos::Graph)).collect();
+        let from_named = q.from_named.iter().map(|g| self.iri_tok(g, Pos::Graph)).collect();
+        let body = self.elems(&q.body);
+        CS {
+            distinct: q.distinct,
+            proj,
+            from,
+            from_named,
+            body,
+            group_by: q.group_by.iter().map(|v| self.var(v)).collect(),
+            order: q.order.iter().map(|(v, d)| (self.var(v), *d)).collect(),
+            limit: q.limit,
+        }
+    }
+    fn quads(&mut self, qs: &[TplQuad], allow_bnode: bool) -> Vec<CQuad> {
+        let mut memo: Vec<(PT, Pos, CT)> = vec![];
+        qs.iter()
+            .map(|q| {
+                let mut term = |lx: &mut Lx, t: &TT, pos: Pos| -> CT {
+                    match t {
+                        TT::Var(v) => lx.pt(&PT::Var(v.clone()), pos, &mut memo),
+                        TT::BNode(b) => CT::T(lx.bnode(b)),
+                        TT::C(c) => {
+                            if matches!(pos, Pos::Subj | Pos::Pred) {
+                                if let Some((_, _, x)) = memo.iter().find(|(x, q, _)| *x == PT::C(c.clone()) && *q == pos) {
+                                    if !lx.ch.chance(40) {
+                                        return x.clone();
+                                    }
+                                }
+                            }
+                            let x = lx.constant(c, pos, allow_bnode);
+                            if matches!(pos, Pos::Subj | Pos::Pred) {
+                                memo.retain(|(y, q, _)| !(*y == PT::C(c.clone()) && *q == pos));
+                                memo.push((PT::C(c.clone()), pos, x.clone()));
+                            }
+                            x
+                        }
+                    }
+                };
+                let t = [term(self, &q.t[0], Pos::Subj), term(self, &q.t[1], Pos::Pred), term(self, &q.t[2], Pos::Obj)];
+                CQuad { graph: q.graph.as_ref().map(|g| self.gname(g)), t }
+            })
+            .collect()
+    }
+}
+
+#[derive(Clone, Debug, Serialize, Deserialize)]
+enum Query {
+    Sel(Select),
+    Upd(UpdOp),
+}
+
+struct LexInfo {
+    exotic: u32,
+    quoted: u32,
+}
+
+fn lexicalise(q: &Query, lex: &[u8]) -> (CReq, LexInfo) {
+    let mut lx = Lx { ch: Ch::new(lex), used: BTreeSet::new(), exotic: 0, quoted: 0, allow_bnode_subst: true };
+    let body = match q {
+        Query::Sel(s) => CBody::Sel(lx.select(s)),
+        Query::Upd(u) => CBody::Upd(match u {
+            // INSERT DATA / INSERT templates may contain blank nodes; DELETE forms may not
+            UpdOp::InsertData(qs) => CU::InsertData(lx.quads(qs, true)),
+            UpdOp::DeleteData(qs) => CU::DeleteData(lx.quads(qs, false)),
+            UpdOp::Modify { delete, insert, where_ } => {
+                let d = lx.quads(delete, false);
+                let i = lx.quads(insert, true);
+                CU::Modify { delete: d, insert: i, w: lx.elems(where_) }
+            }
+            UpdOp::DeleteWhere(qs) => CU::DeleteWhere(lx.quads(qs, false)),
+            UpdOp::Rejected(_) => CU::DeleteWhere(vec![]),
+        }),
+    };
+    // declared prefixes: the used ones (+ sometimes all)
+    let all = lx.ch.chance(40);
+    let prefixes = PREFIXES.iter().filter(|(pf, _)| all || lx.used.contains(pf)).map(|(a, b)| (a.to_string(), b.to_string())).collect();
+    (CReq { prefixes, body }, LexInfo { exotic: lx.exotic, quoted: lx.quoted })
+}
+
+// ------------------------------------------------------------------------------------------
+// printing the CST into tokens; `lay` decides everything that must not matter
+// ------------------------------------------------------------------------------------------
+
+struct Pr<'a, 'b> {
+    lay: &'b mut Ch<'a>,
+    out: Vec<Tok>,
+    abbreviations: u32,
+    dots_omitted: u32,
+    where_omitted: u32,
+}
+
+impl<'a, 'b> Pr<'a, 'b> {
+    fn kw(&mut self, w: &str) {
+        let t = kw(self.lay, w);
+        self.out.push(t);
+    }
+    fn p(&mut self, s: &str) {
+        self.out.push(p(s));
+    }
+    fn t(&mut self, t: &Tok) {
+        self.out.push(t.clone());
+    }
+    fn opt_dot(&mut self, per256: u32) {
+        if self.lay.chance(per256) {
+            self.out.push(tok(".", K::Dot));
+        }
+    }
+    /// triples of one block: `;` / `,` abbreviations for repeated subject / subject+predicate, optional dots.
+    /// `closing`: the block's closing brace follows directly (a dangling `;` is then legal without a dot).
+    fn triples(&mut self, ts: &[[CT; 3]], closing: bool) {
+        let mut i = 0;
+        while i < ts.len() {
+            let t = &ts[i];
+            t[0].toks(&mut self.out);
+            t[1].toks(&mut self.out);
+            t[2].toks(&mut self.out);
+            let mut last = t;
+            i += 1;
+            while i < ts.len() && ts[i][0] == last[0] && !self.lay.chance(90) {
+                self.abbreviations += 1;
+                if ts[i][1] == last[1] && !self.lay.chance(90) {
+                    self.p(",");
+                    ts[i][2].toks(&mut self.out);
+                } else {
+                    self.p(";");
+                    ts[i][1].toks(&mut self.out);
+                    ts[i][2].toks(&mut self.out);
+                }
+                last = &ts[i];
+                i += 1;
+            }
+            let last_stmt = i == ts.len();
+            if self.lay.chance(20) {
+                // dangling `;` (legal before `.` or `}`)
+                self.p(";");
+                if !(last_stmt && closing && self.lay.chance(128)) {
+                    self.out.push(tok(".", K::Dot));
+                }
+                continue;
+            }
+            if self.lay.chance(70) {
+                self.dots_omitted += 1;
+            } else {
+                self.out.push(tok(".", K::Dot));
+            }
+        }
+    }
+    fn cf(&mut self, f: &CF, min_prec: u8) {
+        // precedence: || = 1, && = 2, atom = 3; the parser builds left-associative trees
+        let prec = match f {
+            CF::Or(..) => 1,
+            CF::And(..) => 2,
+            _ => 3,
+        };
+        let wrap = prec < min_prec || self.lay.chance(50);
+        if wrap {
+            self.p("(");
+        }
+        match f {
+            CF::Or(l, r) => {
+                self.cf(l, 1);
+                self.p("||");
+                self.cf(r, 2);
+            }
+            CF::And(l, r) => {
+                self.cf(l, 2);
+                self.p("&&");
+                self.cf(r, 3);
+            }
+            CF::Not(i) => {
+                self.p("!");
+                self.cf(i, 3);
+            }
+            CF::Cmp(l, op, r) => {
+                l.toks(&mut self.out);
+                self.p(op);
+                r.toks(&mut self.out);
+            }
+        }
+        if wrap {
+            self.p(")");
+        }
+    }
+    fn group(&mut self, es: &[CE]) {
+        self.p("{");
+        for (i, e) in es.iter().enumerate() {
+            let closing = i + 1 == es.len();
+            match e {
+                CE::Bgp(ts) => self.triples(ts, closing),
+                CE::Group(g) => {
+                    self.group(g);
+                    self.opt_dot(40);
+                }
+                CE::Union(bs) => {
+                    for (j, b) in bs.iter().enumerate() {
+                        if j > 0 {
+                            self.kw("UNION");
+                        }
+                        self.group(b);
+                    }
+                    self.opt_dot(40);
+                }
+                CE::Graph(n, g) => {
+                    self.kw("GRAPH");
+                    self.t(n);
+                    self.group(g);
+                    self.opt_dot(40);
+                }
+                CE::Filter(f) => {
+                    self.kw("FILTER");
+                    self.p("(");
+                    self.cf(f, 1);
+                    self.p(")");
+                }
+                CE::Bind(args, out) => {
+                    self.kw("BIND");
+                    self.p("(");
+                    self.kw("CONCAT");
+                    self.p("(");
+                    for (j, a) in args.iter().enumerate() {
+                        if j > 0 {
+                            self.p(",");
+                        }
+                        match a {
+                            CArg::Var(v) => self.t(v),
+                            CArg::Str(t, _) => self.t(t),
+                        }
+                    }
+                    self.p(")");
+                    self.kw("AS");
+                    self.t(out);
+                    self.p(")");
+                }
+                CE::Values(vars, rows) => {
+                    self.kw("VALUES");
+                    let single = vars.len() == 1;
+                    if single {
+                        self.t(&vars[0]);
+                    } else {
+                        self.p("(");
+                        for v in vars {
+                            self.t(v);
+                        }
+                        self.p(")");
+                    }
+                    self.p("{");
+                    for r in rows {
+                        if !single {
+                            self.p("(");
+                        }
+                        for c in r {
+                            match c {
+                                Some(t) => self.t(t),
+                                None => self.kw("UNDEF"),
+                            }
+                        }
+                        if !single {
+                            self.p(")");
+                        }
+                    }
+                    self.p("}");
+                }
+                CE::Sub(q) => {
+                    self.p("{");
+                    self.select(q);
+                    self.p("}");
+                    self.opt_dot(40);
+                }
+            }
+        }
+        self.p("}");
+    }
+    fn select(&mut self, q: &CS) {
+        self.kw("SELECT");
+        if q.distinct {
+            self.kw("DISTINCT");
+        }
+        match &q.proj {
+            None => self.p("*"),
+            Some(items) => {
+                for i in items {
+                    match i {
+                        CProj::Var(v) => self.t(v),
+                        CProj::Agg(k, v, a) => {
+                            self.p("(");
+                            self.kw(k);
+                            self.p("(");
+                            self.t(v);
+                            self.p(")");
+                            self.kw("AS");
+                            self.t(a);
+                            self.p(")");
+                        }
+                    }
+                }
+            }
+        }
+        // FROM and FROM NAMED clauses may interleave; each list keeps its order
+        let (mut i, mut j) = (0, 0);
+        while i < q.from.len() || j < q.from_named.len() {
+            let take_named = if i == q.from.len() {
+                true
+            } else if j == q.from_named.len() {
+                false
+            } else {
+                self.lay.chance(100)
+            };
+            self.kw("FROM");
+            if take_named {
+                self.kw("NAMED");
+                self.t(&q.from_named[j]);
+                j += 1;
+            } else {
+                self.t(&q.from[i]);
+                i += 1;
+            }
+        }
+        if self.lay.chance(80) {
+            self.where_omitted += 1;
+        } else {
+            self.kw("WHERE");
+        }
+        self.group(&q.body);
+        if !q.group_by.is_empty() {
+            self.kw("GROUP");
+            self.kw("BY");
+            for v in &q.group_by {
+                self.t(v);
+            }
+        }
+        if !q.order.is_empty() {
+            self.kw("ORDER");
+            self.kw("BY");
+            for (v, desc) in &q.order {
+                if *desc {
+                    self.kw("DESC");
+                    self.p("(");
+                    self.t(v);
+                    self.p(")");
+                } else if self.lay.chance(80) {
+                    self.kw("ASC");
+                    self.p("(");
+                    self.t(v);
+                    self.p(")");
+                } else {
+                    self.t(v);
+                }
+            }
+        }
+        if let Some(l) = q.limit {
+            self.kw("LIMIT");
+            let s = if self.lay.chance(40) { format!("00{l}") } else { l.to_string() };
+            self.out.push(tok(s, K::Num));
+        }
+    }
+    fn quad_block(&mut self, qs: &[CQuad]) {
+        self.p("{");
+        let mut i = 0;
+        while i < qs.len() {
+            // maximal run of quads that may share one block: same graph lexeme (a run may also be cut short)
+            let mut j = i + 1;
+            while j < qs.len() && qs[j].graph == qs[i].graph && !self.lay.chance(60) {
+                j += 1;
+            }
+            let ts: Vec<[CT; 3]> = qs[i..j].iter().map(|q| q.t.clone()).collect();
+            match &qs[i].graph {
+                None => self.triples(&ts, j == qs.len()),
+                Some(g) => {
+                    self.kw("GRAPH");
+                    self.t(g);
+                    self.p("{");
+                    self.triples(&ts, true);
+                    self.p("}");
+                    self.opt_dot(40);
+                }
+            }
+            i = j;
+        }
+        self.p("}");
+    }
+    fn request(&mut self, r: &CReq) {
+        for (pf, iri) in &r.prefixes {
+            self.kw("PREFIX");
+            self.out.push(tok(format!("{pf}:"), K::Name));
+            self.out.push(tok(format!("<{iri}>"), K::Iri));
+        }
+        match &r.body {
+            CBody::Sel(q) => self.select(q),
+            CBody::Upd(u) => match u {
+                CU::InsertData(qs) => {
+                    self.kw("INSERT");
+                    self.kw("DATA");
+                    self.quad_block(qs);
+                }
+                CU::DeleteData(qs) => {
+                    self.kw("DELETE");
+                    self.kw("DATA");
+                    self.quad_block(qs);
+                }
+                CU::DeleteWhere(qs) => {
+                    self.kw("DELETE");
+                    self.kw("WHERE");
+                    self.quad_block(qs);
+                }
+                CU::Modify { delete, insert, w } => {
+                    if !delete.is_empty() || insert.is_empty() {
+                        self.kw("DELETE");
+                        self.quad_block(delete);
+                    }
+                    if !insert.is_empty() {
+                        self.kw("INSERT");
+                        self.quad_block(insert);
+                    }
+                    self.kw("WHERE");
+                    self.group(w);
+                }
+            },
+        }
+    }
+}
+
+struct Printed {
+    text: String,
+    toks: Vec<Tok>,
+    st: LayoutStats,
+    abbreviations: u32,
+    dots_omitted: u32,
+    where_omitted: u32,
+}
+
+fn print_tokens(r: &CReq, lay: &mut Ch) -> (Vec<Tok>, u32, u32, u32) {
+    let mut pr = Pr { lay, out: vec![], abbreviations: 0, dots_omitted: 0, where_omitted: 0 };
+    pr.request(r);
+    (pr.out, pr.abbreviations, pr.dots_omitted, pr.where_omitted)
+}
+
+fn print_request(r: &CReq, lay: &[u8]) -> Printed {
+    let mut ch = Ch::new(lay);
+    let (toks, abbreviations, dots_omitted, where_omitted) = print_tokens(r, &mut ch);
+    let mut st = LayoutStats::default();
+    let text = render(&toks, &mut ch, &mut st);
+    Printed { text, toks, st, abbreviations, dots_omitted, where_omitted }
+}
+
+// ------------------------------------------------------------------------------------------
+// owned mirror of the parser's AST
+// ------------------------------------------------------------------------------------------
+
+#[derive(Clone, PartialEq, Debug)]
+enum MArith {
+    Operand(String),
+    Bin(char, Box<MArith>, Box<MArith>),
+}
+
+#[derive(Clone, PartialEq, Debug)]
+enum MFilter {
+    /// operands: the raw operand text, token-wise (whitespace/comments inside an operand are layout)
+    Cmp(String, String, String),
+    And(Box<MFilter>, Box<MFilter>),
+    Or(Box<MFilter>, Box<MFilter>),
+    Not(Box<MFilter>),
+    Arith(MArith),
+    Func(String, Vec<String>),
+}
+
+#[derive(Clone, PartialEq, Debug)]
+enum MPat {
+    Unit,
+    Bgp(Vec<[String; 3]>),
+    Join(Vec<MPat>),
+    Union(Vec<MPat>),
+    Graph(String, Box<MPat>),
+    Filter(MFilter),
+    Bind(String, Vec<String>, String),
+    Values(Vec<String>, Vec<Vec<Option<String>>>),
+    Sub(Box<MSelect>),
+}
+
+#[derive(Clone, PartialEq, Debug)]
+struct MSelect {
+    distinct: bool,
+    vars: Vec<(String, String, Option<String>)>,
+    from: Vec<String>,
+    from_named: Vec<String>,
+    pattern: MPat,
+    group: Vec<String>,
+    order: Vec<(String, bool)>,
+    limit: Option<usize>,
+}
+
+type MQuad = (Option<String>, [String; 3]);
+
+#[derive(Clone, PartialEq, Debug)]
+enum MUpd {
+    InsertData(Vec<MQuad>),
+    DeleteData(Vec<MQuad>),
+    InsertWhere(Vec<MQuad>, MPat),
+    DeleteWhere(Vec<MQuad>, MPat),
+    DeleteInsertWhere(Vec<MQuad>, Vec<MQuad>, MPat),
+    /// template + the quads that the implied WHERE pattern matches (flattened, grouping-independent)
+    DeleteWhereShorthand(Vec<MQuad>, Vec<MQuad>),
+}
+
+// ---- tokeniser for raw slices kept by the AST (comparison operands, quoted triples) ----
+
+fn name_char(c: char) -> bool {
+    c.is_alphanumeric() || matches!(c, '_' | ':' | '-' | '%' | '\u{00B7}') || (!c.is_ascii() && !c.is_whitespace())
+}
+
+fn lit_len(s: &str) -> usize {
+    let q = s.chars().next().unwrap();
+    let triple = s.len() >= 3 && s[1..].starts_with(q) && s[2..].starts_with(q);
+    let dl = if triple { 3 } else { 1 };
+    let delim: String = std::iter::repeat(q).take(dl).collect();
+    let mut i = dl;
+    let mut end = None;
+    while i < s.len() {
+        if s[i..].starts_with(&delim) {
+            end = Some(i + dl);
+            break;
+        }
+        let c = s[i..].chars().next().unwrap();
+        if c == '\\' {
+            i += 1;
+            if let Some(n) = s[i..].chars().next() {
+                i += n.len_utf8();
+            }
+            continue;
+        }
+        i += c.len_utf8();
+    }
+    let Some(mut e) = end else { return s.len() };
+    let rest = &s[e..];
+    if let Some(l) = rest.strip_prefix('@') {
+        let n = l.chars().take_while(|c| c.is_ascii_alphanumeric() || *c == '-').count();
+        e += 1 + n;
+    } else if let Some(d) = rest.strip_prefix("^^") {
+        if d.starts_with('<') {
+            e += 2 + d.find('>').map(|p| p + 1).unwrap_or(d.len());
+        } else {
+            e += 2 + name_len(d);
+        }
+    }
+    e
+}
+
+fn name_len(s: &str) -> usize {
+    let mut i = 0;
+    let mut end = 0;
+    while i < s.len() {
+        let c = s[i..].chars().next().unwrap();
+        if c == '\\' {
+            i += 1;
+            if let Some(n) = s[i..].chars().next() {
+                i += n.len_utf8();
+            }
+            end = i;
+        } else if name_char(c) {
+            i += c.len_utf8();
+            end = i;
+        } else if c == '.' {
+            i += 1; // only part of the name when a name character follows
+        } else {
+            break;
+        }
+    }
+    end
+}
+
+fn lex_raw(s: &str) -> Vec<String> {
+    let mut out = vec![];
+    let mut rest = s;
+    loop {
+        rest = skip_ws_comments(rest);
+        let Some(c) = rest.chars().next() else { break };
+        let mut len = if rest.starts_with("<<") || rest.starts_with(">>") {
+            2
+        } else if c == '<' {
+            match rest[1..].find(|ch: char| ch == '>' || ch == '<' || ch.is_whitespace()) {
+                Some(p) if rest[1 + p..].starts_with('>') => p + 2,
+                _ => 1,
+            }
+        } else if c == '"' || c == '\'' {
+            lit_len(rest)
+        } else if c == '?' || c == '$' {
+            1 + rest[1..].chars().take_while(|c| c.is_alphanumeric() || *c == '_').map(|c| c.len_utf8()).sum::<usize>()
+        } else if c.is_ascii_digit() || (c == '.' && rest[1..].starts_with(|d: char| d.is_ascii_digit())) {
+            let b = rest.as_bytes();
+            let mut i = 0;
+            while i < b.len() && b[i].is_ascii_digit() {
+                i += 1;
+            }
+            if i < b.len() && b[i] == b'.' && i + 1 < b.len() && b[i + 1].is_ascii_digit() {
+                i += 1;
+                while i < b.len() && b[i].is_ascii_digit() {
+                    i += 1;
+                }
+            }
+            if i < b.len() && (b[i] == b'e' || b[i] == b'E') {
+                let mut j = i + 1;
+                if j < b.len() && (b[j] == b'+' || b[j] == b'-') {
+                    j += 1;
+                }
+                let k = j;
+                while j < b.len() && b[j].is_ascii_digit() {
+                    j += 1;
+                }
+                if j > k {
+                    i = j;
+                }
+            }
+            i
+        } else if (name_char(c) && c != '-') || c == '\\' {
+            name_len(rest)
+        } else {
+            c.len_utf8()
+        };
+        if len == 0 {
+            len = c.len_utf8();
+        }
+        out.push(rest[..len].to_string());
+        rest = &rest[len..];
+    }
+    out
+}
+
+/// set when the harness' own tokeniser does not reproduce the tokens the printer emitted (harness defect, never the engine's)
+static LEXER_INCONSISTENT: std::sync::atomic::AtomicBool = std::sync::atomic::AtomicBool::new(false);
+
+fn lexer_checked(joined: String) -> String {
+    if canon_raw(&joined) != joined {
+        eprintln!("harness tokeniser inconsistent on {joined:?}: {:?}", lex_raw(&joined));
+        LEXER_INCONSISTENT.store(true, std::sync::atomic::Ordering::Relaxed);
+    }
+    joined
+}
+
+fn canon_raw(s: &str) -> String {
+    lex_raw(s).join(" ")
+}
+
+fn canon_term(s: &str) -> String {
+    if s.starts_with("<<") {
+        canon_raw(s)
+    } else {
+        s.to_string()
+    }
+}
+
+// ---- borrowed AST -> mirror ----
+
+fn conv_arith(a: &pq::ArithmeticExpression) -> MArith {
+    use pq::ArithmeticExpression as A;
+    match a {
+        A::Operand(s) => MArith::Operand(s.to_string()),
+        A::Add(l, r) => MArith::Bin('+', Box::new(conv_arith(l)), Box::new(conv_arith(r))),
+        A::Subtract(l, r) => MArith::Bin('-', Box::new(conv_arith(l)), Box::new(conv_arith(r))),
+        A::Multiply(l, r) => MArith::Bin('*', Box::new(conv_arith(l)), Box::new(conv_arith(r))),
+        A::Divide(l, r) => MArith::Bin('/', Box::new(conv_arith(l)), Box::new(conv_arith(r))),
+    }
+}
+
+fn conv_filter(f: &pq::FilterExpression) -> MFilter {
+    use pq::FilterExpression as F;
+    match f {
+        F::Comparison(l, op, r) => MFilter::Cmp(canon_raw(l), op.to_string(), canon_raw(r)),
+        F::And(l, r) => MFilter::And(Box::new(conv_filter(l)), Box::new(conv_filter(r))),
+        F::Or(l, r) => MFilter::Or(Box::new(conv_filter(l)), Box::new(conv_filter(r))),
+        F::Not(i) => MFilter::Not(Box::new(conv_filter(i))),
+        F::ArithmeticExpr(a) => MFilter::Arith(conv_arith(a)),
+        F::FunctionCall(n, args) => MFilter::Func(n.to_string(), args.iter().map(|a| canon_term(a)).collect()),
+    }
+}
+
+fn conv_pat(p: &pq::GroupGraphPattern) -> MPat {
+    use pq::GroupGraphPattern as G;
+    match p {
+        G::Unit => MPat::Unit,
+        G::Bgp(ts) => MPat::Bgp(ts.iter().map(|t| [canon_term(t.0), canon_term(t.1), canon_term(t.2)]).collect()),
+        G::Join(v) => MPat::Join(v.iter().map(conv_pat).collect()),
+        G::Union(v) => MPat::Union(v.iter().map(conv_pat).collect()),
+        G::Graph { name, pattern } => MPat::Graph(name.to_string(), Box::new(conv_pat(pattern))),
+        G::Filter(f) => MPat::Filter(conv_filter(f)),
+        G::Bind((f, args, v)) => MPat::Bind(f.to_string(), args.iter().map(|a| a.to_string()).collect(), v.to_string()),
+        G::Values(v) => MPat::Values(
+            v.variables.iter().map(|x| x.to_string()).collect(),
+            v.values
+                .iter()
+                .map(|r| {
+                    r.iter()
+                        .map(|c| match c {
+                            pq::Value::Term(t) => Some(t.clone()),
+                            pq::Value::Undef => None,
+                        })
+                        .collect()
+                })
+                .collect(),
+        ),
+        G::SubQuery(s) => MPat::Sub(Box::new(conv_select(&s.query))),
+    }
+}
+
+fn conv_select(q: &pq::SelectQuery) -> MSelect {
+    MSelect {
+        distinct: q.distinct,
+        vars: q.variables.iter().map(|(k, v, a)| (k.to_string(), v.to_string(), a.map(|a| a.to_string()))).collect(),
+        from: q.from.iter().map(|s| s.to_string()).collect(),
+        from_named: q.from_named.iter().map(|s| s.to_string()).collect(),
+        pattern: conv_pat(&q.pattern),
+        group: q.group_vars.iter().map(|s| s.to_string()).collect(),
+        order: q.order_conditions.iter().map(|c| (c.variable.to_string(), c.direction == pq::SortDirection::Desc)).collect(),
+        limit: q.limit,
+    }
+}
+
+fn conv_quads(qs: &[pq::LexicalQuadPattern]) -> Vec<MQuad> {
+    qs.iter().map(|q| (q.graph.map(|g| g.to_string()), [canon_term(q.triple.0), canon_term(q.triple.1), canon_term(q.triple.2)])).collect()
+}
+
+/// the (graph, triple) pairs a pattern made of BGPs and GRAPH-wrapped BGPs matches; None if it has another shape
+fn flatten_quads(p: &MPat, g: Option<&String>, out: &mut Vec<MQuad>) -> bool {
+    match p {
+        MPat::Unit => true,
+        MPat::Bgp(ts) => {
+            for t in ts {
+                out.push((g.cloned(), t.clone()));
+            }
+            true
+        }
+        MPat::Join(v) => v.iter().all(|x| flatten_quads(x, g, out)),
+        MPat::Graph(n, inner) if g.is_none() => flatten_quads(inner, Some(n), out),
+        _ => false,
+    }
+}
+
+fn conv_update(u: &pq::UpdateOperation) -> MUpd {
+    use pq::UpdateOperation as U;
+    match u {
+        U::InsertData(c) => MUpd::InsertData(conv_quads(&c.quads)),
+        U::DeleteData(c) => MUpd::DeleteData(conv_quads(&c.quads)),
+        U::InsertWhere { insert, where_pattern } => MUpd::InsertWhere(conv_quads(&insert.quads), norm(conv_pat(where_pattern))),
+        U::DeleteWhere { delete, where_pattern } => MUpd::DeleteWhere(conv_quads(&delete.quads), norm(conv_pat(where_pattern))),
+        U::DeleteInsertWhere { delete, insert, where_pattern } => MUpd::DeleteInsertWhere(conv_quads(&delete.quads), conv_quads(&insert.quads), norm(conv_pat(where_pattern))),
+        U::DeleteWhereShorthand { delete, where_pattern } => {
+            let mut flat = vec![];
+            if !flatten_quads(&conv_pat(where_pattern), None, &mut flat) {
+                flat = vec![(Some("<pattern is not a conjunction of (GRAPH-wrapped) triple patterns>".into()), [String::new(), String::new(), String::new()])];
+            }
+            MUpd::DeleteWhereShorthand(conv_quads(&delete.quads), flat)
+        }
+    }
+}
+
+/// The only normalisation (applied to both sides): adjacent BGP siblings of one group are merged in order; a
+/// group left with one member is that member (the parser's own rule for single-member groups).
+fn norm(p: MPat) -> MPat {
+    match p {
+        MPat::Join(v) => {
+            let mut out: Vec<MPat> = vec![];
+            for x in v {
+                let x = norm(x);
+                match (out.last_mut(), x) {
+                    (Some(MPat::Bgp(a)), MPat::Bgp(b)) => a.extend(b),
+                    (_, x) => out.push(x),
+                }
+            }
+            if out.len() == 1 {
+                out.pop().unwrap()
+            } else {
+                MPat::Join(out)
+            }
+        }
+        MPat::Union(v) => MPat::Union(v.into_iter().map(norm).collect()),
+        MPat::Graph(n, i) => MPat::Graph(n, Box::new(norm(*i))),
+        MPat::Sub(mut s) => {
+            s.pattern = norm(std::mem::replace(&mut s.pattern, MPat::Unit));
+            MPat::Sub(s)
+        }
+        other => other,
+    }
+}
+
+// ---- CST -> expected mirror (the AST's documented normal form) ----
+
+fn exp_arith_text(a: &CA) -> String {
+    let mut t = vec![];
+    a.toks(&mut t);
+    lexer_checked(t.iter().map(|x| x.s.clone()).collect::<Vec<_>>().join(" "))
+}
+
+fn exp_filter(f: &CF) -> MFilter {
+    match f {
+        CF::Cmp(l, op, r) => MFilter::Cmp(exp_arith_text(l), op.to_string(), exp_arith_text(r)),
+        CF::And(l, r) => MFilter::And(Box::new(exp_filter(l)), Box::new(exp_filter(r))),
+        CF::Or(l, r) => MFilter::Or(Box::new(exp_filter(l)), Box::new(exp_filter(r))),
+        CF::Not(i) => MFilter::Not(Box::new(exp_filter(i))),
+    }
+}
+
+fn exp_group(es: &[CE]) -> MPat {
+    let mut parts = vec![];
+    for e in es {
+        parts.push(match e {
+            CE::Bgp(ts) => MPat::Bgp(ts.iter().map(|t| [t[0].canon(), t[1].canon(), t[2].canon()]).collect()),
+            CE::Group(g) => exp_group(g),
+            CE::Union(bs) => MPat::Union(bs.iter().map(|b| exp_group(b)).collect()),
+            CE::Graph(n, g) => MPat::Graph(n.s.clone(), Box::new(exp_group(g))),
+            CE::Filter(f) => MPat::Filter(exp_filter(f)),
+            CE::Bind(args, out) => MPat::Bind(
+                "CONCAT".into(),
+                args.iter()
+                    .map(|a| match a {
+                        CArg::Var(v) => v.s.clone(),
+                        CArg::Str(_, inner) => inner.clone(),
+                    })
+                    .collect(),
+                out.s.clone(),
+            ),
+            CE::Values(vars, rows) => MPat::Values(vars.iter().map(|v| v.s.clone()).collect(), rows.iter().map(|r| r.iter().map(|c| c.as_ref().map(|t| t.s.clone())).collect()).collect()),
+            CE::Sub(q) => MPat::Sub(Box::new(exp_select(q))),
+        });
+    }
+    match parts.len() {
+        0 => MPat::Unit,
+        1 => parts.pop().unwrap(),
+        _ => MPat::Join(parts),
+    }
+}
+
+fn exp_select(q: &CS) -> MSelect {
+    MSelect {
+        distinct: q.distinct,
+        vars: match &q.proj {
+            None => vec![("*".into(), "*".into(), None)],
+            Some(items) => items
+                .iter()
+                .map(|i| match i {
+                    CProj::Var(v) => ("VAR".to_string(), v.s.clone(), None),
+                    CProj::Agg(k, v, a) => (k.to_string(), v.s.clone(), Some(a.s.clone())),
+                })
+                .collect(),
+        },
+        from: q.from.iter().map(|t| t.s.clone()).collect(),
+        from_named: q.from_named.iter().map(|t| t.s.clone()).collect(),
+        pattern: exp_group(&q.body),
+        group: q.group_by.iter().map(|t| t.s.clone()).collect(),
+        order: q.order.iter().map(|(t, d)| (t.s.clone(), *d)).collect(),
+        limit: q.limit,
+    }
+}
+
+fn exp_quads(qs: &[CQuad]) -> Vec<MQuad> {
+    qs.iter().map(|q| (q.graph.as_ref().map(|g| g.s.clone()), [q.t[0].canon(), q.t[1].canon(), q.t[2].canon()])).collect()
+}
+
+fn exp_update(u: &CU) -> MUpd {
+    match u {
+        CU::InsertData(q) => MUpd::InsertData(exp_quads(q)),
+        CU::DeleteData(q) => MUpd::DeleteData(exp_quads(q)),
+        CU::DeleteWhere(q) => MUpd::DeleteWhereShorthand(exp_quads(q), exp_quads(q)),
+        CU::Modify { delete, insert, w } => {
+            let w = norm(exp_group(w));
+            match (delete.is_empty(), insert.is_empty()) {
+                (false, false) => MUpd::DeleteInsertWhere(exp_quads(delete), exp_quads(insert), w),
+                (true, false) => MUpd::InsertWhere(exp_quads(insert), w),
+                (_, true) => MUpd::DeleteWhere(exp_quads(delete), w),
+            }
+        }
+    }
+}
+
+fn norm_select(mut s: MSelect) -> MSelect {
+    s.pattern = norm(std::mem::replace(&mut s.pattern, MPat::Unit));
+    s
+}
+
+fn pat_depth(p: &MPat) -> u32 {
+    match p {
+        MPat::Join(v) | MPat::Union(v) => 1 + v.iter().map(pat_depth).max().unwrap_or(0),
+        MPat::Graph(_, i) => 1 + pat_depth(i),
+        MPat::Sub(s) => 1 + pat_depth(&s.pattern),
+        _ => 1,
+    }
+}
+
+fn pat_has(p: &MPat, f: &dyn Fn(&MPat) -> bool) -> bool {
+    if f(p) {
+        return true;
+    }
+    match p {
+        MPat::Join(v) | MPat::Union(v) => v.iter().any(|x| pat_has(x, f)),
+        MPat::Graph(_, i) => pat_has(i, f),
+        MPat::Sub(s) => pat_has(&s.pattern, f),
+        _ => false,
+    }
+}
+
+// ------------------------------------------------------------------------------------------
+// faithfulness oracle
+// ------------------------------------------------------------------------------------------
+
+#[derive(Clone, PartialEq, Debug)]
+enum MBody {
+    Sel(MSelect),
+    Upd(MUpd),
+}
+
+fn expected_body(r: &CReq) -> MBody {
+    match &r.body {
+        CBody::Sel(q) => MBody::Sel(norm_select(exp_select(q))),
+        CBody::Upd(u) => MBody::Upd(exp_update(u)),
+    }
+}
+
+/// parse through the main entry point and convert; Err((sig suffix, detail))
+fn parse_mirror(text: &str, with_aliases: bool) -> Result<(BTreeMap<String, String>, MBody), (String, String)> {
+    let r = catch(|| {
+        let res = if with_aliases { kolibrie::parser::parse_combined_query_with_options(text, true) } else { kolibrie::parser::parse_combined_query(text) };
+        match res {
+            Err(e) => Err(("rejected".to_string(), format!("{e:?}"))),
+            Ok((rest, c)) => {
+                if !skip_ws_comments(rest).is_empty() {
+                    return Err(("remainder".into(), format!("unconsumed {rest:?}")));
+                }
+                if c.retrieve_clause.is_some() || c.register_clause.is_some() || c.rule.is_some() || c.ml_predict.is_some() || !c.model_decls.is_empty() || !c.neural_relation_decls.is_empty() || !c.train_neural_relation_decls.is_empty() {
+                    return Err(("extension_invented".into(), "a plain SPARQL request produced extension clauses".into()));
+                }
+                let prefixes: BTreeMap<String, String> = c.prefixes.iter().map(|(k, v)| (k.clone(), v.clone())).collect();
+                match &c.sparql {
+                    None => Err(("no_operation".into(), "CombinedQuery.sparql is None".into())),
+                    Some(pq::SparqlOperation::Select(q)) => Ok((prefixes, MBody::Sel(norm_select(conv_select(q))))),
+                    Some(pq::SparqlOperation::Update(u)) => Ok((prefixes, MBody::Upd(conv_update(u)))),
+                }
+            }
+        }
+    });
+    match r {
+        Err(site) => Err((format!("panic:{}", panic_sig(&site)), format!("panic at {}:{}: {}", site.file, site.line, site.msg))),
+        Ok(x) => x,
+    }
+}
+
+fn clip(s: &str, n: usize) -> String {
+    let mut e = s.len().min(n);
+    while !s.is_char_boundary(e) {
+        e -= 1;
+    }
+    if e < s.len() {
+        format!("{}…", &s[..e])
+    } else {
+        s.to_string()
+    }
+}
+
+/// narrow description of the first difference between two mirrors
+fn diff_body(exp: &MBody, got: &MBody) -> Option<(String, String)> {
+    if exp == got {
+        return None;
+    }
+    let d = |what: &str, e: String, g: String| Some((what.to_string(), format!("expected {} got {}", clip(&e, 1500), clip(&g, 1500))));
+    match (exp, got) {
+        (MBody::Sel(e), MBody::Sel(g)) => {
+            if e.distinct != g.distinct || e.vars != g.vars {
+                return d("projection", format!("{:?} {:?}", e.distinct, e.vars), format!("{:?} {:?}", g.distinct, g.vars));
+            }
+            if e.from != g.from || e.from_named != g.from_named {
+                return d("dataset_clause", format!("{:?} {:?}", e.from, e.from_named), format!("{:?} {:?}", g.from, g.from_named));
+            }
+            if e.group != g.group || e.order != g.order || e.limit != g.limit {
+                return d("modifiers", format!("{:?} {:?} {:?}", e.group, e.order, e.limit), format!("{:?} {:?} {:?}", g.group, g.order, g.limit));
+            }
+            d("pattern", format!("{:?}", e.pattern), format!("{:?}", g.pattern))
+        }
+        (MBody::Upd(e), MBody::Upd(g)) => {
+            if std::mem::discriminant(e) != std::mem::discriminant(g) {
+                return d("update_form", format!("{e:?}"), format!("{g:?}"));
+            }
+            let tpl = |u: &MUpd| -> Vec<MQuad> {
+                match u {
+                    MUpd::InsertData(q) | MUpd::DeleteData(q) | MUpd::InsertWhere(q, _) | MUpd::DeleteWhere(q, _) | MUpd::DeleteWhereShorthand(q, _) => q.clone(),
+                    MUpd::DeleteInsertWhere(a, b, _) => a.iter().chain(b.iter()).cloned().collect(),
+                }
+            };
+            if tpl(e) != tpl(g) {
+                return d("update_template", format!("{:?}", tpl(e)), format!("{:?}", tpl(g)));
+            }
+            d("update_where", format!("{e:?}"), format!("{g:?}"))
+        }
+        _ => d("operation_kind", format!("{exp:?}"), format!("{got:?}")),
+    }
+}
+
+#[derive(Clone, Debug, Serialize, Deserialize)]
+struct RtCase {
+    q: Query,
+    lex: Vec<u8>,
+    lay1: Vec<u8>,
+    lay2: Vec<u8>,
+}
+
+fn query_strategy() -> BoxedStrategy<Query> {
+    prop_oneof![
+        4 => sq::data_query_strategy(2, 6, 4).prop_map(|(_, q)| Query::Sel(q)),
+        3 => sq::data_query_strategy(3, 6, 4).prop_map(|(_, q)| Query::Sel(q)),
+        4 => (sq::dataset_strategy(6, 4), raw_op()).prop_map(|(d, r)| {
+            let op = UBuilder::new(&d).op(&r);
+            Query::Upd(match op {
+                UpdOp::Rejected(_) => UpdOp::DeleteWhere(vec![TplQuad { graph: Some(GName::Var("g".into())), t: [TT::Var("a".into()), TT::C(Tm::Iri(sq::RDF_TYPE.into())), TT::Var("c".into())] }]),
+                o => o,
+            })
+        }),
+    ]
+    .boxed()
+}
+
+fn bytes(max: usize) -> impl Strategy<Value = Vec<u8>> {
+    proptest::collection::vec(any::<u8>(), 0..max)
+}
+
+struct Roundtrip;
+impl Part for Roundtrip {
+    type Case = RtCase;
+    fn name(&self) -> &'static str {
+        "roundtrip"
+    }
+    fn cases(&self, tier: Tier) -> u32 {
+        tier.pick(8_000, 300_000)
+    }
+    fn strategy(&self, _: Tier) -> BoxedStrategy<RtCase> {
+        (query_strategy(), bytes(160), bytes(240), bytes(240)).prop_map(|(q, lex, lay1, lay2)| RtCase { q, lex, lay1, lay2 }).boxed()
+    }
+    fn describe(&self, c: &RtCase) -> serde_json::Value {
+        let (req, _) = lexicalise(&c.q, &c.lex);
+        json!({"printing_1": print_request(&req, &c.lay1).text, "printing_2": print_request(&req, &c.lay2).text})
+    }
+    fn check(&self, c: &RtCase) -> Outcome {
+        let mut o = Outcome::new();
+        let (req, li) = lexicalise(&c.q, &c.lex);
+        let exp = expected_body(&req);
+        let exp_prefixes: BTreeMap<String, String> = req.prefixes.iter().cloned().collect();
+        let p1 = print_request(&req, &c.lay1);
+        let p2 = print_request(&req, &c.lay2);
+        if LEXER_INCONSISTENT.load(std::sync::atomic::Ordering::Relaxed) {
+            o.fail("c16.harness.lexer", "the harness tokeniser disagrees with the printer's tokens (harness defect)");
+            return o;
+        }
+        let is_sel = matches!(exp, MBody::Sel(_));
+        let kind = if is_sel { "select" } else { "update" };
+        let mut mirrors = vec![];
+        for (i, pr) in [&p1, &p2].into_iter().enumerate() {
+            o.inner_evals += 1;
+            match parse_mirror(&pr.text, false) {
+                Err((what, d)) => {
+                    let sig = if let Some(ps) = what.strip_prefix("panic:") { ps.to_string() } else { format!("c16.faithful.{what}.{kind}") };
+                    o.fail(sig, format!("printing {} of a valid {kind} request: {d}\n--- text ---\n{}", i + 1, pr.text));
+                    return o;
+                }
+                Ok((prefixes, body)) => {
+                    if prefixes != exp_prefixes {
+                        o.fail("c16.faithful.prefixes", format!("expected {:?} got {:?}\n--- text ---\n{}", exp_prefixes, prefixes, pr.text));
+                        return o;
+                    }
+                    if let Some((what, d)) = diff_body(&exp, &body) {
+                        o.fail(format!("c16.faithful.{what}"), format!("printing {}: {d}\n--- text ---\n{}", i + 1, pr.text));
+                        return o;
+                    }
+                    mirrors.push(body);
+                }
+            }
+        }
+        if mirrors[0] != mirrors[1] {
+            o.fail("c16.faithful.two_printings_differ", format!("--- text 1 ---\n{}\n--- text 2 ---\n{}", p1.text, p2.text));
+            return o;
+        }
+        // the other entry points build the same tree
+        o.inner_evals += 1;
+        match parse_mirror(&p1.text, true) {
+            Ok((_, b)) if b == mirrors[0] => {}
+            other => {
+                o.fail("c16.faithful.alias_option_changes_tree", format!("parse_combined_query_with_options(_, true) differs: {:?}\n--- text ---\n{}", other.map(|x| x.1), p1.text));
+                return o;
+            }
+        }
+        if is_sel {
+            o.inner_evals += 1;
+            let r = catch(|| kolibrie::parser::parse_sparql_query(&p2.text).map(|(rest, q)| (rest.to_string(), norm_select(conv_select(&q)))).map_err(|e| format!("{e:?}")));
+            match r {
+                Err(site) => o.fail(panic_sig(&site), format!("parse_sparql_query panicked: {}\n--- text ---\n{}", site.msg, p2.text)),
+                Ok(Err(e)) => o.fail("c16.faithful.rejected.select_entry", format!("parse_sparql_query rejects what parse_combined_query accepts: {e}\n--- text ---\n{}", p2.text)),
+                Ok(Ok((rest, m))) => {
+                    if !rest.is_empty() || MBody::Sel(m) != mirrors[0] {
+                        o.fail("c16.faithful.select_entry_differs", format!("parse_sparql_query builds a different tree / leaves {rest:?}\n--- text ---\n{}", p2.text));
+                    }
+                }
+            }
+        }
+        // ---- classes / non-triviality ----
+        let (depth, has_op) = match &exp {
+            MBody::Sel(s) => (pat_depth(&s.pattern) + 1, pat_has(&s.pattern, &|p| matches!(p, MPat::Graph(..) | MPat::Union(_) | MPat::Sub(_)))),
+            MBody::Upd(MUpd::InsertWhere(_, w)) | MBody::Upd(MUpd::DeleteWhere(_, w)) | MBody::Upd(MUpd::DeleteInsertWhere(_, _, w)) => (pat_depth(w) + 1, pat_has(w, &|p| matches!(p, MPat::Graph(..) | MPat::Union(_) | MPat::Sub(_)))),
+            MBody::Upd(_) => (2, false),
+        };
+        let layout_nontrivial = |p: &Printed| p.st.comments + p.st.glued + p.st.odd_ws > 0;
+        o.nontrivial = depth >= 3 && has_op && (layout_nontrivial(&p1) || layout_nontrivial(&p2));
+        o.class_if(is_sel, "select");
+        if let MBody::Upd(u) = &exp {
+            o.class(match u {
+                MUpd::InsertData(_) => "insert-data",
+                MUpd::DeleteData(_) => "delete-data",
+                MUpd::InsertWhere(..) => "insert-where",
+                MUpd::DeleteWhere(..) => "delete-where",
+                MUpd::DeleteInsertWhere(..) => "delete-insert-where",
+                MUpd::DeleteWhereShorthand(..) => "delete-where-shorthand",
+            });
+        }
+        let text_all = format!("{}{}", p1.text, p2.text);
+        o.class_if(depth >= 4, "depth>=4");
+        o.class_if(p1.st.comments + p2.st.comments > 0, "comment");
+        o.class_if(p1.st.cr_comment + p2.st.cr_comment > 0, "comment-ended-by-CR");
+        o.class_if(p1.st.glued + p2.st.glued > 0, "tokens-glued");
+        o.class_if(p1.abbreviations + p2.abbreviations > 0, "semicolon-comma-abbreviation");
+        o.class_if(p1.dots_omitted + p2.dots_omitted > 0, "dot-omitted");
+        o.class_if(p1.where_omitted + p2.where_omitted > 0 && is_sel, "where-omitted");
+        o.class_if(li.exotic > 0, "exotic-lexeme");
+        o.class_if(li.quoted > 0, "quoted-triple");
+        o.class_if(text_all.contains('$'), "dollar-variable");
+        o.class_if(text_all.contains("\"\"\"") || text_all.contains("'''"), "long-quoted-literal");
+        o.class_if(text_all.contains("^^"), "datatype");
+        o.class_if(text_all.contains("\"@") || text_all.contains("'@"), "language-tag");
+        o.class_if(p1.toks.iter().any(|t| t.k == K::Kw && t.s == "a"), "a-keyword");
+        o.class_if(p1.toks.iter().any(|t| t.k == K::Kw && t.s.chars().any(|c| c.is_ascii_lowercase()) && t.s.len() > 1), "keyword-case");
+        if let MBody::Sel(s) = &exp {
+            o.class_if(pat_has(&s.pattern, &|p| matches!(p, MPat::Union(_))), "union");
+            o.class_if(pat_has(&s.pattern, &|p| matches!(p, MPat::Graph(..))), "graph");
+            o.class_if(pat_has(&s.pattern, &|p| matches!(p, MPat::Sub(_))), "subselect");
+            o.class_if(pat_has(&s.pattern, &|p| matches!(p, MPat::Filter(_))), "filter");
+            o.class_if(pat_has(&s.pattern, &|p| matches!(p, MPat::Filter(MFilter::Cmp(l, _, _)) if l.contains(' '))), "arithmetic-comparison");
+            o.class_if(pat_has(&s.pattern, &|p| matches!(p, MPat::Values(..))), "values");
+            o.class_if(pat_has(&s.pattern, &|p| matches!(p, MPat::Bind(..))), "bind");
+            o.class_if(pat_has(&s.pattern, &|p| matches!(p, MPat::Unit)), "empty-group");
+            o.class_if(!s.from.is_empty() || !s.from_named.is_empty(), "dataset-clause");
+            o.class_if(!s.order.is_empty() || s.limit.is_some() || !s.group.is_empty(), "modifiers");
+        }
+        o
+    }
+}
+
+// ------------------------------------------------------------------------------------------
+// totality parts
+// ------------------------------------------------------------------------------------------
+
+fn total_outcome(input: &str, o: &mut Outcome) -> TotalReport {
+    let r = check_total_report(input);
+    o.inner_evals += r.parsers_run as u64;
+    for (sig, d) in &r.failures {
+        o.fail(sig.clone(), d.clone());
+    }
+    o.nontrivial = r.rejected_after_progress;
+    o.class_if(r.accepted.iter().any(|a| a.starts_with("parse_combined_query") || *a == "parse_sparql_query"), "accepted-by-request-parser");
+    o.class_if(!r.accepted.is_empty(), "accepted-by-some-parser");
+    o.class_if(r.accepted.is_empty(), "rejected-by-all");
+    o.class_if(r.rejected_after_progress, "rejected-after-first-token");
+    for a in &r.accepted {
+        match *a {
+            "parse_rule" | "parse_standalone_rule" => o.class("accepted:rule"),
+            "parse_register_clause" => o.class("accepted:register"),
+            "parse_retrieve_clause" => o.class("accepted:retrieve"),
+            "parse_model_decl" | "parse_neural_relation_decl" | "parse_train_neural_relation_decl" => o.class("accepted:neural-decl"),
+            "parse_ml_predict" => o.class("accepted:ml-predict"),
+            "parse_window_spec" | "parse_from_named_window" => o.class("accepted:window"),
+            _ => {}
+        }
+    }
+    r
+}
+
+fn load_dir(dir: &str) -> Vec<(String, Vec<u8>)> {
+    let mut v = vec![];
+    if let Ok(rd) = std::fs::read_dir(dir) {
+        for e in rd.flatten() {
+            if e.path().is_file() {
+                if let Ok(b) = std::fs::read(e.path()) {
+                    v.push((e.file_name().to_string_lossy().to_string(), b));
+                }
+            }
+        }
+    }
+    v.sort();
+    v
+}
+
+// ---- sweep ----
+
+#[derive(Clone, Debug, Serialize, Deserialize)]
+struct SweepCase {
+    file: String,
+    edit: String,
+    offset: usize,
+    input: String,
+}
+
+const INSERTS: [(&str, &str); 6] = [("insert-é", "é"), ("insert-€", "€"), ("insert-😀", "😀"), ("insert-U+0301", "\u{0301}"), ("insert-U+00A0", "\u{00A0}"), ("insert-U+2028", "\u{2028}")];
+
+fn sweep_token_at(s: &str, off: usize) -> Option<&str> {
+    // a token starts at `off`: maximal run of name-ish characters, or one other non-blank character
+    let rest = &s[off..];
+    let c = rest.chars().next()?;
+    if c.is_whitespace() {
+        return None;
+    }
+    let wordish = |c: char| c.is_alphanumeric() || matches!(c, '_' | ':' | '?' | '$' | '-' | '.');
+    if wordish(c) {
+        if off > 0 && s[..off].chars().last().map_or(false, wordish) {
+            return None;
+        }
+        let n: usize = rest.chars().take_while(|c| wordish(*c)).map(|c| c.len_utf8()).sum();
+        Some(&rest[..n])
+    } else {
+        Some(&rest[..c.len_utf8()])
+    }
+}
+
+fn sweep_cases(corpus: Vec<(String, String)>) -> impl Iterator<Item = SweepCase> + Send {
+    corpus.into_iter().flat_map(|(file, text)| {
+        let mut offs: Vec<usize> = text.char_indices().map(|(i, _)| i).collect();
+        offs.push(text.len());
+        let mut v = vec![SweepCase { file: file.clone(), edit: "unchanged".into(), offset: 0, input: text.clone() }];
+        for &off in &offs {
+            for (name, ins) in INSERTS {
+                v.push(SweepCase { file: file.clone(), edit: name.into(), offset: off, input: format!("{}{}{}", &text[..off], ins, &text[off..]) });
+            }
+            if off < text.len() {
+                let cl = text[off..].chars().next().unwrap().len_utf8();
+                v.push(SweepCase { file: file.clone(), edit: "delete-char".into(), offset: off, input: format!("{}{}", &text[..off], &text[off + cl..]) });
+                v.push(SweepCase { file: file.clone(), edit: "truncate".into(), offset: off, input: text[..off].to_string() });
+                if let Some(t) = sweep_token_at(&text, off) {
+                    v.push(SweepCase { file: file.clone(), edit: "duplicate-token".into(), offset: off, input: format!("{}{} {}", &text[..off], t, &text[off..]) });
+                }
+            }
+        }
+        v.into_iter()
+    })
+}
+
+struct Sweep;
+impl Part for Sweep {
+    type Case = SweepCase;
+    fn name(&self) -> &'static str {
+        "sweep"
+    }
+    fn cases(&self, _: Tier) -> u32 {
+        0
+    }
+    fn strategy(&self, _: Tier) -> BoxedStrategy<SweepCase> {
+        Just(SweepCase { file: String::new(), edit: String::new(), offset: 0, input: String::new() }).boxed()
+    }
+    fn check(&self, c: &SweepCase) -> Outcome {
+        let mut o = Outcome::new();
+        total_outcome(&c.input, &mut o);
+        o.class_if(c.edit.starts_with("insert-"), "edit:multibyte-insert");
+        o.class_if(c.edit == "delete-char", "edit:delete-char");
+        o.class_if(c.edit == "duplicate-token", "edit:duplicate-token");
+        o.class_if(c.edit == "truncate", "edit:truncate");
+        o.class_if(c.edit == "unchanged", "edit:none");
+        o
+    }
+}
+
+// ---- token-level mutations of generated valid requests ----
+
+#[derive(Clone, Debug, Serialize, Deserialize)]
+struct MutCase {
+    q: Query,
+    lex: Vec<u8>,
+    lay: Vec<u8>,
+    muts: Vec<(u8, u16, u16)>,
+}
+
+const MUT_DICT: [&str; 64] = [
+    "SELECT", "WHERE", "{", "}", "(", ")", ".", ";", ",", "UNION", "GRAPH", "FILTER", "BIND", "VALUES", "UNDEF", "<<", ">>", "?x", "$y", "_:b", "a", "e:p", ":", "<urn:x>", "<", ">", "\"", "'", "\"\"\"", "'''",
+    "\\", "@en", "^^", "#", "\n", "\r", "*", "=", "!=", "&&", "||", "!", "+", "-", "1", "1.", ".5", "1e", "é", "€", "😀", "\u{0301}", "\u{00A0}", "\u{2028}", "INSERT", "DELETE", "DATA", "PREFIX", "FROM", "NAMED", "ORDER BY", "LIMIT", "AS", "%2",
+];
+
+fn apply_mutations(toks: &mut Vec<Tok>, muts: &[(u8, u16, u16)]) {
+    for &(k, a, b) in muts {
+        if toks.is_empty() {
+            toks.push(tok(MUT_DICT[pick_idx(b, MUT_DICT.len())], K::Kw));
+            continue;
+        }
+        let i = pick_idx(a, toks.len());
+        match k % 9 {
+            0 => {
+                toks.remove(i);
+            }
+            1 => {
+                let t = toks[i].clone();
+                toks.insert(i, t);
+            }
+            2 => {
+                if i + 1 < toks.len() {
+                    toks.swap(i, i + 1);
+                }
+            }
+            3 => toks[i] = tok(MUT_DICT[pick_idx(b, MUT_DICT.len())], K::Kw),
+            4 => toks.insert(i, tok(MUT_DICT[pick_idx(b, MUT_DICT.len())], K::P)),
+            5 => {
+                // multi-byte character inside the token, at a char boundary
+                let s = &toks[i].s;
+                let offs: Vec<usize> = s.char_indices().map(|(x, _)| x).chain([s.len()]).collect();
+                let at = offs[pick_idx(b, offs.len())];
+                let ins = ["é", "€", "😀", "\u{0301}", "\u{00A0}", "\u{2028}"][b as usize % 6];
+                let ns = format!("{}{}{}", &s[..at], ins, &s[at..]);
+                toks[i].s = ns;
+            }
+            6 => toks.truncate(i),
+            7 => {
+                // cut the token itself short
+                let s = &toks[i].s;
+                let offs: Vec<usize> = s.char_indices().map(|(x, _)| x).collect();
+                let at = offs[pick_idx(b, offs.len())];
+                toks[i].s = s[..at].to_string();
+                if toks[i].s.is_empty() {
+                    toks.remove(i);
+                }
+            }
+            _ => {
+                let t = &mut toks[i];
+                t.s = if b % 2 == 0 { t.s.to_uppercase() } else { t.s.to_lowercase() };
+            }
+        }
+    }
+}
+
+fn mutated_text(c: &MutCase) -> String {
+    let (req, _) = lexicalise(&c.q, &c.lex);
+    let mut ch = Ch::new(&c.lay);
+    let (mut toks, ..) = print_tokens(&req, &mut ch);
+    if let Query::Upd(UpdOp::Rejected(t)) = &c.q {
+        toks = t.split_whitespace().map(|w| tok(w, K::Kw)).collect();
+    }
+    apply_mutations(&mut toks, &c.muts);
+    let mut st = LayoutStats::default();
+    render(&toks, &mut ch, &mut st)
+}
+
+struct Mutations;
+impl Part for Mutations {
+    type Case = MutCase;
+    fn name(&self) -> &'static str {
+        "mutations"
+    }
+    fn cases(&self, tier: Tier) -> u32 {
+        tier.pick(20_000, 400_000)
+    }
+    fn strategy(&self, _: Tier) -> BoxedStrategy<MutCase> {
+        let q = prop_oneof![
+            3 => query_strategy(),
+            1 => (sq::dataset_strategy(4, 3), raw_op()).prop_map(|(d, r)| Query::Upd(UBuilder::new(&d).op(&r))),
+        ];
+        (q, bytes(120), bytes(200), proptest::collection::vec((0u8..9, any::<u16>(), any::<u16>()), 1..=4)).prop_map(|(q, lex, lay, muts)| MutCase { q, lex, lay, muts }).boxed()
+    }
+    fn describe(&self, c: &MutCase) -> serde_json::Value {
+        json!({"text": mutated_text(c), "mutations": c.muts})
+    }
+    fn check(&self, c: &MutCase) -> Outcome {
+        let mut o = Outcome::new();
+        let text = mutated_text(c);
+        total_outcome(&text, &mut o);
+        o.class_if(!text.is_ascii(), "non-ascii");
+        o
+    }
+}
+
+// ---- corpus / artifact replay ----
+
+#[derive(Clone, Debug, Serialize, Deserialize)]
+struct BytesCase {
+    name: String,
+    bytes: Vec<u8>,
+}
+
+struct FuzzCorpus;
+impl Part for FuzzCorpus {
+    type Case = BytesCase;
+    fn name(&self) -> &'static str {
+        "fuzz-corpus"
+    }
+    fn cases(&self, _: Tier) -> u32 {
+        0
+    }
+    fn strategy(&self, _: Tier) -> BoxedStrategy<BytesCase> {
+        Just(BytesCase { name: String::new(), bytes: vec![] }).boxed()
+    }
+    fn check(&self, c: &BytesCase) -> Outcome {
+        let mut o = Outcome::new();
+        let text = String::from_utf8_lossy(&c.bytes);
+        total_outcome(&text, &mut o);
+        o.class_if(c.name.starts_with("artifact:"), "libfuzzer-artifact");
+        o.class_if(std::str::from_utf8(&c.bytes).is_err(), "invalid-utf8");
+        o
+    }
+}
+
+// ---- deep nesting, in a child process on a 2 MiB stack ----
+
+#[derive(Clone, Debug, Serialize, Deserialize)]
+struct NestCase {
+    kind: String,
+    n: usize,
+}
+
+fn nesting_input(kind: &str, n: usize) -> String {
+    match kind {
+        "group" => format!("SELECT * WHERE {}?s ?p ?o{}", "{".repeat(n), "}".repeat(n)),
+        "quoted" => format!("SELECT * WHERE {{ {}<urn:s> <urn:p> <urn:o>{} <urn:p> <urn:o> }}", "<<".repeat(n), " >> <urn:p> <urn:o>".repeat(n.saturating_sub(1)) + " >>"),
+        "filter_paren" => format!("SELECT * WHERE {{ ?s ?p ?o FILTER({}?o > 1{}) }}", "(".repeat(n), ")".repeat(n)),
+        "group_open_only" => format!("SELECT * WHERE {}", "{".repeat(n)),
+        "quoted_open_only" => format!("SELECT * WHERE {{ {}", "<<".repeat(n)),
+        "filter_paren_open_only" => format!("SELECT * WHERE {{ ?s ?p ?o FILTER({}", "(".repeat(n)),
+        _ => String::new(),
+    }
+}
+
+fn child_nesting(kind: &str, n: usize) -> i32 {
+    install_panic_hook();
+    let input = nesting_input(kind, n);
+    let h = std::thread::Builder::new().stack_size(2 << 20).spawn(move || check_total_report(&input)).expect("spawn");
+    match h.join() {
+        Ok(r) => {
+            println!("{}", json!({"failures": r.failures, "accepted": r.accepted}));
+            if r.failures.is_empty() {
+                0
+            } else {
+                3
+            }
+        }
+        Err(_) => 4,
+    }
+}
+
+struct Nesting;
+impl Part for Nesting {
+    type Case = NestCase;
+    fn name(&self) -> &'static str {
+        "deep-nesting"
+    }
+    fn cases(&self, _: Tier) -> u32 {
+        0
+    }
+    fn strategy(&self, _: Tier) -> BoxedStrategy<NestCase> {
+        Just(NestCase { kind: "group".into(), n: 1 }).boxed()
+    }
+    fn check(&self, c: &NestCase) -> Outcome {
+        use std::os::unix::process::ExitStatusExt;
+        let mut o = Outcome::new();
+        let exe = match std::env::current_exe() {
+            Ok(e) => e,
+            Err(_) => {
+                o.skipped.push("child-unavailable");
+                return o;
+            }
+        };
+        let child = std::process::Command::new(exe).arg("--child-nesting").arg(&c.kind).arg(c.n.to_string()).stdin(std::process::Stdio::null()).stdout(std::process::Stdio::piped()).stderr(std::process::Stdio::piped()).spawn();
+        let mut child = match child {
+            Ok(ch) => ch,
+            Err(_) => {
+                o.skipped.push("child-unavailable");
+                return o;
+            }
+        };
+        // bounded wait: a slow child is an infrastructure matter, never a violation
+        let t0 = std::time::Instant::now();
+        let status = loop {
+            match child.try_wait() {
+                Ok(Some(s)) => break Some(s),
+                Ok(None) => {
+                    if t0.elapsed().as_secs() > 240 {
+                        let _ = child.kill();
+                        let _ = child.wait();
+                        break None;
+                    }
+                    std::thread::sleep(std::time::Duration::from_millis(20));
+                }
+                Err(_) => break None,
+            }
+        };
+        let Some(status) = status else {
+            o.skipped.push("child-timeout");
+            return o;
+        };
+        let mut out = String::new();
+        let mut err = String::new();
+        use std::io::Read;
+        if let Some(mut s) = child.stdout.take() {
+            let _ = s.read_to_string(&mut out);
+        }
+        if let Some(mut s) = child.stderr.take() {
+            let _ = s.read_to_string(&mut err);
+        }
+        o.inner_evals += 14;
+        o.nontrivial = true;
+        if let Some(sig) = status.signal() {
+            let overflow = err.contains("overflowed its stack");
+            let what = if overflow { "stack_overflow" } else { "killed_by_signal" };
+            o.fail(
+                format!("c16.total.{what}.{}", c.kind),
+                format!("parsing {} nesting levels of `{}` on a 2 MiB stack killed the process (signal {sig}): {} — input {:?}", c.n, c.kind, clip(err.trim(), 300), clip(&nesting_input(&c.kind, c.n), 120)),
+            );
+            return o;
+        }
+        match status.code() {
+            Some(0) => {
+                o.class_if(out.contains("parse_combined_query"), "accepted");
+            }
+            Some(3) => {
+                let v: serde_json::Value = serde_json::from_str(out.trim()).unwrap_or(json!({}));
+                for f in v.get("failures").and_then(|f| f.as_array()).cloned().unwrap_or_default() {
+                    let sig = f.get(0).and_then(|s| s.as_str()).unwrap_or("c16.total.child_failure").to_string();
+                    let d = f.get(1).and_then(|s| s.as_str()).unwrap_or("").to_string();
+                    o.fail(sig, format!("[{} x {}] {}", c.kind, c.n, clip(&d, 600)));
+                }
+            }
+            code => {
+                o.fail(format!("c16.total.child_abnormal_exit.{}", c.kind), format!("child exit {:?}: {}", code, clip(err.trim(), 300)));
+            }
+        }
+        o
+    }
+}
+
+// ---- libFuzzer campaign (thorough tier) ----
+
+#[derive(Clone, Debug, Serialize, Deserialize)]
+struct FuzzCase {
+    runs_per_job: u64,
+    jobs: u32,
+    seed: u64,
+}
+
+fn copy_dir(from: &str, to: &str) -> std::io::Result<u32> {
+    std::fs::create_dir_all(to)?;
+    let mut n = 0;
+    for (name, b) in load_dir(from) {
+        std::fs::write(format!("{to}/{name}"), b)?;
+        n += 1;
+    }
+    Ok(n)
+}
+
+struct LibFuzzer;
+impl Part for LibFuzzer {
+    type Case = FuzzCase;
+    fn name(&self) -> &'static str {
+        "libfuzzer"
+    }
+    fn cases(&self, _: Tier) -> u32 {
+        0
+    }
+    fn serial(&self) -> bool {
+        true
+    }
+    fn strategy(&self, _: Tier) -> BoxedStrategy<FuzzCase> {
+        Just(FuzzCase { runs_per_job: 0, jobs: 0, seed: 1 }).boxed()
+    }
+    fn check(&self, c: &FuzzCase) -> Outcome {
+        let mut o = Outcome::new();
+        if c.jobs == 0 {
+            return o;
+        }
+        let cargo = |args: &[String]| {
+            let mut cmd = std::process::Command::new("sh");
+            // deep recursion on fuzz inputs is the business of the deep-nesting part: give the fuzzer a large stack
+            cmd.arg("-c").arg("ulimit -s 1048576 2>/dev/null || ulimit -s unlimited 2>/dev/null; exec cargo \"$@\"").arg("cargo");
+            cmd.args(args).current_dir("/verif/harness").env("CARGO_NET_OFFLINE", "true").env_remove("RUSTFLAGS").env_remove("CARGO_TARGET_DIR");
+            cmd.stdin(std::process::Stdio::null()).stdout(std::process::Stdio::piped()).stderr(std::process::Stdio::piped());
+            cmd
+        };
+        let s = |x: &str| x.to_string();
+        // build once (the parallel jobs then find an up-to-date binary)
+        let b = cargo(&[s("+nightly"), s("fuzz"), s("build"), s("--fuzz-dir"), s("/verif/fuzz"), s("parse_total")]).output();
+        match b {
+            Ok(out) if out.status.success() => {}
+            Ok(out) => {
+                eprintln!("cargo fuzz build failed: {}", String::from_utf8_lossy(&out.stderr));
+                o.skipped.push("libfuzzer-build-failed");
+                return o;
+            }
+            Err(e) => {
+                eprintln!("cargo fuzz not available: {e}");
+                o.skipped.push("libfuzzer-unavailable");
+                return o;
+            }
+        }
+        let before: BTreeSet<String> = load_dir(ARTIFACT_DIR).into_iter().map(|(n, _)| n).collect();
+        let work = "/verif/fuzz/corpus-work/parse_total";
+        let _ = std::fs::remove_dir_all(work);
+        let mut children = vec![];
+        for j in 0..c.jobs {
+            let dir = format!("{work}/job{j}");
+            if copy_dir(CORPUS_DIR, &dir).is_err() {
+                o.skipped.push("libfuzzer-corpus-copy-failed");
+                return o;
+            }
+            let seed = if c.seed == 0 { 1 } else { c.seed } + j as u64 * 7919;
+            let args = vec![
+                s("+nightly"), s("fuzz"), s("run"), s("--fuzz-dir"), s("/verif/fuzz"), s("parse_total"), dir, s("--"),
+                format!("-runs={}", c.runs_per_job), format!("-seed={seed}"), s("-max_len=4096"), s("-len_control=0"), s("-print_final_stats=1"), s("-dict=/verif/fuzz/sparql.dict"), s("-timeout=120"), s("-rss_limit_mb=4096"),
+            ];
+            match cargo(&args).spawn() {
+                Ok(ch) => children.push(ch),
+                Err(e) => {
+                    eprintln!("spawn cargo fuzz run: {e}");
+                    o.skipped.push("libfuzzer-unavailable");
+                }
+            }
+        }
+        let mut crashed = false;
+        for ch in children {
+            match ch.wait_with_output() {
+                Ok(out) => {
+                    let err = String::from_utf8_lossy(&out.stderr);
+                    let mut units = 0u64;
+                    for l in err.lines() {
+                        if let Some(v) = l.strip_prefix("stat::number_of_executed_units:") {
+                            units = v.trim().parse().unwrap_or(0);
+                        }
+                        if l.starts_with("C16-VIOLATION") || l.contains("ERROR: libFuzzer") || l.starts_with("stat::") || l.starts_with("Done ") {
+                            eprintln!("[libfuzzer] {l}");
+                        }
+                    }
+                    if units == 0 {
+                        // no final stats: the job died; count what the last status line reports
+                        for l in err.lines().rev() {
+                            if let Some(r) = l.strip_prefix('#') {
+                                units = r.split_whitespace().next().and_then(|x| x.parse().ok()).unwrap_or(0);
+                                break;
+                            }
+                        }
+                    }
+                    o.inner_evals += units;
+                    if !out.status.success() {
+                        crashed = true;
+                    }
+                }
+                Err(_) => o.skipped.push("libfuzzer-wait-failed"),
+            }
+        }
+        o.nontrivial = o.inner_evals > 0;
+        // replay every new artifact on the stable build before calling it a violation
+        for (name, bytes) in load_dir(ARTIFACT_DIR) {
+            if before.contains(&name) {
+                continue;
+            }
+            if name.starts_with("timeout-") || name.starts_with("slow-unit-") {
+                o.skipped.push("libfuzzer-slow-unit-not-a-violation");
+                continue;
+            }
+            if name.starts_with("oom-") {
+                o.skipped.push("libfuzzer-oom-not-judged");
+                continue;
+            }
+            let text = String::from_utf8_lossy(&bytes).to_string();
+            let r = check_total_report(&text);
+            if r.failures.is_empty() {
+                o.fail("c16.fuzz.crash_not_reproduced_in_process", format!("artifact {ARTIFACT_DIR}/{name} crashed the fuzz target but passes check_total on the stable build; bytes={:?}", clip(&text, 400)));
+            }
+            for (sig, d) in r.failures {
+                o.fail(sig, format!("libFuzzer artifact {name} (replay case: part fuzz-corpus, bytes {:?}): {d}", bytes));
+            }
+        }
+        if crashed && o.failures.is_empty() {
+            o.skipped.push("libfuzzer-job-ended-abnormally-without-new-artifact");
+        }
+        o
+    }
+}
+
+// ------------------------------------------------------------------------------------------
+
+fn main() {
+    let args: Vec<String> = std::env::args().collect();
+    if args.len() >= 4 && args[1] == "--child-nesting" {
+        std::process::exit(child_nesting(&args[2], args[3].parse().unwrap_or(1)));
+    }
+    if args.len() >= 3 && args[1] == "--probe" {
+        // debugging aid: run the totality oracle on a file and print the report
+        install_panic_hook();
+        let b = std::fs::read(&args[2]).expect("read");
+        let r = check_total_report(&String::from_utf8_lossy(&b));
+        println!("{r:#?}");
+        std::process::exit(if r.failures.is_empty() { 0 } else { 1 });
+    }
+    let mut s = Session::start(
+        "C16",
+        "exploration",
+        "TOTALITY (kvh::parse_oracle::check_total = 14 public parsers under catch_unwind; panic = violation; for parse_combined_query / \
+         parse_combined_query_with_options(_,true) / parse_sparql_query Ok implies nothing but whitespace/comments is left): \
+         part `sweep` (exhaustive): every request of /verif/corpus/parse_total (150 strings extracted from the repo's tests/examples + 16 hand-written clause samples: SELECT, six update forms, \
+         RULE/PROB, REGISTER, RETRIEVE, MODEL / NEURAL RELATION / TRAIN declarations, ML.PREDICT, window specs) x every char-boundary offset x {insert é, €, 😀, U+0301, U+00A0, U+2028; delete the char; \
+         duplicate the token starting there; truncate there}; part `mutations`: 1-4 token-level edits (delete/duplicate/swap/replace/insert dictionary token, multi-byte char inside a token, truncate, cut token, change case) \
+         of generated valid requests printed with random layout; part `deep-nesting`: `{`xN, `<<`xN, `(`xN in FILTER (balanced and opener-only), N in 1e2..1e5, child process, 2 MiB stack; \
+         part `fuzz-corpus`: replay of the corpus and of libFuzzer artifacts; part `libfuzzer` (thorough): 4 cargo-fuzz jobs on target parse_total (same oracle), new artifacts replayed in-process. \
+         FAITHFULNESS part `roundtrip`: syntax trees from the C01/C03 generators (SELECT with GRAPH/UNION/sub-SELECT/FILTER/BIND/VALUES/modifiers/dataset clauses; six update forms) are given exact lexemes by a `lex` choice vector \
+         ($x/?x, four quote forms, language tags, datatypes, prefixed names with dots/escapes/%XX/colons/non-ASCII, IRIs with \\u escapes, numeric forms, booleans, blank nodes, RDF-star quoted triples, `a`) and printed twice with independent `lay` choice vectors \
+         (spaces/tabs/CR/LF/none where the token grammar allows, # comments ended by LF, CR or CRLF between any two tokens, keyword case, optional WHERE, optional dots, dangling `;`, `;`/`,` abbreviations, interleaved FROM/FROM NAMED, shared or split GRAPH blocks, redundant filter parentheses); \
+         the borrowed AST is converted to an owned mirror and compared with the tree expected from the generated one (nesting, order, exact lexemes, filter operator trees, VALUES rows, modifiers, dataset clauses, templates, graph names, PREFIX map); both printings and all three entry points must agree. \
+         Non-trivial: roundtrip = depth >= 3 with GRAPH/UNION/sub-SELECT and a comment / glued tokens / odd whitespace; totality = the input starts with a request keyword and is rejected. distinct = distinct case.",
+    );
+    s.assume("the expected AST is built from the documented normal form of shared::query (one member group = the member, empty group = Unit, `a` and every lexeme kept as written, BIND string arguments without their quotes, aggregate names upper-case); both sides are normalised only by merging adjacent BGP siblings of one group");
+    s.assume("raw text slices kept by the AST (comparison operands, quoted triples) are compared token-wise with the harness' own tokeniser — whitespace/comments inside such a slice are layout; DELETE WHERE's implied pattern is compared as the flattened list of (graph, triple) pairs");
+    s.assume("layout choices are limited to what the SPARQL token grammar / the repo's tests document: no dot after FILTER/BIND/VALUES, single-variable VALUES without parentheses, UNION operands braced");
+    s.assume("a panic is observed through catch_unwind with the harness dev profile (overflow checks on, as in the project's own test profile); stack exhaustion is observed as the death of a child process whose parser thread has a 2 MiB stack");
+    let tier = s.tier;
+
+    let corpus: Vec<(String, String)> = load_dir(CORPUS_DIR).into_iter().map(|(n, b)| (n, String::from_utf8_lossy(&b).to_string())).collect();
+    if corpus.is_empty() {
+        eprintln!("corpus {CORPUS_DIR} is empty");
+    }
+    s.run_enum(&Sweep, sweep_cases(corpus), true);
+    s.run(&Roundtrip);
+    s.run(&Mutations);
+    let mut nest = vec![];
+    for kind in ["group", "quoted", "filter_paren", "group_open_only", "quoted_open_only", "filter_paren_open_only"] {
+        for n in [100usize, 1_000, 10_000, 100_000] {
+            nest.push(NestCase { kind: kind.into(), n });
+        }
+    }
+    s.run_enum(&Nesting, nest.into_iter(), true);
+    let mut files: Vec<BytesCase> = load_dir(CORPUS_DIR).into_iter().map(|(n, b)| BytesCase { name: format!("corpus:{n}"), bytes: b }).collect();
+    files.extend(load_dir(ARTIFACT_DIR).into_iter().map(|(n, b)| BytesCase { name: format!("artifact:{n}"), bytes: b }));
+    s.run_enum(&FuzzCorpus, files.into_iter(), true);
+    if tier == Tier::Thorough {
+        let seed = if s.seed == 0 { 1 } else { s.seed };
+        s.run_enum(&LibFuzzer, vec![FuzzCase { runs_per_job: 750_000, jobs: 4, seed }].into_iter(), false);
+    }
+    std::process::exit(s.finish());
+}
